@@ -1,7 +1,113 @@
 import FrappyProofs.Lemmas.Discovery
+/-
+C19 — property theorems (nothing but property theorems and their non-vacuity examples).
+
+`generatedTables` are the constants re-extracted from `frappy/protocol/discovery.py` on every run;
+the theorems are about the model instantiated with them.
+-/
 namespace Frappy.Props.C19
 open Frappy.Discovery Frappy.Spec.C19
 
-theorem max_message_len_le_508 : Generated.C19.maxMessageLen ≤ limit := by decide
+/-- the node as the Spec sees it: what the server hands to `UDPListener` -/
+def nodeOf (id version : Str) (description : Option Str) (ifaces : List Iface) : Node :=
+  ⟨id, firmwareOf version, description.getD [], ifaces⟩
+
+/-! ## table facts -/
+
+theorem max_message_len_le_508 : generatedTables.maxLen ≤ limit := by decide
+theorem budget_port_is_widest : generatedTables.budgetPort = maxPort := by decide
+theorem recv_buffer_positive : 0 < generatedTables.recvBuf := by decide
+/-- the `except` clause keeps the loop going for everything the decoding raises -/
+theorem decode_errors_caught :
+    generatedTables.catches .unicodeDecodeError = true ∧ generatedTables.catches .jsonDecodeError = true ∧
+    generatedTables.catches .valueError = true := by decide
+/-- of the interface schemes the server knows, `startswith('tcp')` selects exactly `tcp` -/
+theorem tcp_prefix_test_exact :
+    ∀ s ∈ Generated.C19.serverSchemes, (['t', 'c', 'p'].isPrefixOf s = true ↔ s = ['t', 'c', 'p']) := by decide
+
+/-! ## size -/
+
+/-- Every message the enabled responder builds for a port of at most 65535 has at most 508 bytes —
+all equipment ids, versions, descriptions (or `None`), interface lists. -/
+theorem message_le_508 (id version : Str) (description : Option Str) (ifaces : List Iface) (p : Nat)
+    (hen : (construct generatedTables id version description ifaces).enabled = true)
+    (hp : p ≤ maxPort) :
+    (message generatedTables id (construct generatedTables id version description ifaces).fw
+      (construct generatedTables id version description ifaces).desc p).length ≤ limit := by
+  unfold construct at hen ⊢
+  split at hen
+  · simp at hen
+  · rename_i h
+    rw [if_neg h]
+    simp only
+    rw [message_length]
+    rw [gen_maxLen, baseLen_eq] at h ⊢
+    have h1 := strSize_fit_le (508 - (78 + strSize id + strSize (generatedTables.fwPrefix ++ version))) (description.getD [])
+    have h2 := utf8_decimal_length_le p hp
+    unfold limit; omega
+
+example : (construct generatedTables ['e', 'q'] ['1'] (some (List.replicate 600 '"')) [⟨['t', 'c', 'p'], 10767⟩]).enabled = true
+    ∧ (10767 : Nat) ≤ maxPort := by decide
+
+/-! ## truncation -/
+
+/-- the description sent is a prefix, as a list of characters, of the original -/
+theorem truncation_on_char_boundary (id version : Str) (description : Option Str) (ifaces : List Iface) :
+    (construct generatedTables id version description ifaces).desc <+: description.getD [] := by
+  unfold construct; split
+  · exact List.nil_prefix
+  · exact fit_prefix _ _
+
+/-- a description that is not over-long is sent whole -/
+theorem description_kept_when_it_fits (id version : Str) (description : Option Str) (ifaces : List Iface)
+    (hfit : compactSize (nodeOf id version description ifaces) (description.getD []) ≤ limit) :
+    (construct generatedTables id version description ifaces).desc = description.getD [] := by
+  unfold compactSize nodeOf frameSize limit at hfit
+  simp only at hfit
+  unfold construct
+  rw [gen_maxLen, baseLen_eq, gen_fw]
+  rw [if_neg (by omega)]
+  exact fit_eq_self _ _ (by omega)
+
+/-- truncation removes no more than necessary: one more character would not fit -/
+theorem truncation_minimal (id version : Str) (description : Option Str) (ifaces : List Iface)
+    (hen : (construct generatedTables id version description ifaces).enabled = true) :
+    TruncationMinimal (nodeOf id version description ifaces)
+      (construct generatedTables id version description ifaces).desc := by
+  unfold construct at hen ⊢
+  split at hen
+  · simp at hen
+  · rename_i h
+    rw [if_neg h]
+    rw [gen_maxLen, baseLen_eq, gen_fw] at h ⊢
+    unfold TruncationMinimal compactSize nodeOf frameSize limit
+    simp only
+    rcases fit_maximal (508 - (78 + strSize id + strSize (firmwareOf version))) (description.getD []) with h' | h'
+    · left; exact h'
+    · right; omega
+
+/-! ## enabled or disabled -/
+
+/-- the responder is disabled exactly when the identity alone does not fit -/
+theorem disabled_iff_identity_too_long (id version : Str) (description : Option Str) (ifaces : List Iface) :
+    (construct generatedTables id version description ifaces).enabled = false ↔
+      ¬ IdentityFits (nodeOf id version description ifaces) := by
+  unfold construct IdentityFits compactSize nodeOf frameSize limit
+  rw [gen_maxLen, baseLen_eq, gen_fw]
+  simp only [strSize]
+  split <;> simp <;> omega
+
+example : ¬ IdentityFits (nodeOf (List.replicate 500 'x') ['1'] none []) := by decide +kernel
+example : IdentityFits (nodeOf (List.replicate 300 'x') ['1'] none []) := by decide +kernel
+
+/-- what the constructed responder says about itself meets the Spec's rule -/
+theorem listener_ok (id version : Str) (description : Option Str) (ifaces : List Iface) :
+    ListenerOK (nodeOf id version description ifaces)
+      (construct generatedTables id version description ifaces).enabled
+      (construct generatedTables id version description ifaces).desc := by
+  refine ⟨?_, fun _ => ⟨truncation_on_char_boundary id version description ifaces, ?_⟩⟩
+  · have := disabled_iff_identity_too_long id version description ifaces
+    cases h : (construct generatedTables id version description ifaces).enabled <;> simp_all
+  · exact description_kept_when_it_fits id version description ifaces
 
 end Frappy.Props.C19
